@@ -83,7 +83,9 @@ def run(ctx):
             violations.append(viol(c, 'run succeeds', a['result'] + ' ' + a['msg'], 'ok')); continue
         if m[0] == 'neigh':
             r = json.loads(rows(a['stdout'])[0]); x, y = m[1], m[2]; checked += 1
-            r.pop('su', None)     # ordering compares through doubles (C07's domain is the interoperable range): only membership is checked
+            su = r.pop('su', None)     # ordering compares through doubles (C07's domain is the interoperable range): only membership is checked
+            if not isinstance(su, list) or sorted(set(su)) != sorted({x, y, 7}):
+                violations.append(viol(c, '(sort_unique l) keeps every distinct integer of l (neighbours above 2^53 are distinct)', json.dumps(su), json.dumps(sorted({x, y, 7}))))
             exp = {'eq': False, 'ne': True, 'same': True, 'fa': [x, x], 'anyb': True}
             if r != exp: violations.append(viol(c, 'neighbouring integers above 2^53 stay distinct in =, != and filter', json.dumps(r), json.dumps(exp)))
             continue
